@@ -155,7 +155,7 @@ func runC13(r *Run) {
 			kg := callsMatching(h, false, nameIs("field:limiter.Config.KeyGenerator"))
 			r.need(len(kg) == 1, name+" calls KeyGenerator once")
 			for i, c := range callsMatching(h, false, isGetSet) {
-				r.check(c.Common.Args[1] == kg[0].Value(), fmt.Sprintf("%s:%s#%d:key", name, short(c.Name), i), r.pos(c.Instr), "key = KeyGenerator(c)", "storage is accessed with a key other than the KeyGenerator result (other clients' budgets are affected)")
+				r.check(flowsUnchanged(c.Common.Args[1], kg[0].Value()), fmt.Sprintf("%s:%s#%d:key", name, short(c.Name), i), r.pos(c.Instr), "key = KeyGenerator(c)", "storage is accessed with a key other than the KeyGenerator result (other clients' budgets are affected)")
 			}
 		}
 	})
@@ -215,12 +215,24 @@ func runC13(r *Run) {
 			gets := callsMatching(h, false, nameHasSuffix("limiter.manager).get"))
 			sets := callsMatching(h, false, nameHasSuffix("limiter.manager).set"))
 			r.need(len(gets) >= 1 && len(sets) >= 1, name+" get/set")
-			first := gets[0]
+			// the get that opens the admission section: not the one of the skip path that runs after the handler
+			var first callSite
+			found := false
 			for _, c := range gets {
-				if dom(c.Block(), first.Block()) && c.Block() != first.Block() {
-					first = c
+				post := false
+				for _, nx := range callsIn(h, false) {
+					if !isNext(nx.Name) {
+						continue
+					}
+					if _, hit := reach(pointAfter(nx.Instr), func(in ssa.Instruction) bool { return in == c.Instr }, nil, nil); hit != nil {
+						post = true
+					}
+				}
+				if !post && !found {
+					first, found = c, true
 				}
 			}
+			r.need(found, name+" has a get before the handler runs")
 			var incr ssa.Instruction
 			isIncr := func(in ssa.Instruction) bool {
 				st, ok := in.(*ssa.Store)
